@@ -15,11 +15,14 @@ COQ_SHARD = 150
 DESIGN_REF = "§5 C29, §6 F5"
 TECHNIQUE = ("Coq proof (model of ThreeWayDiffer + valueMerger.TryMerge/processBaseColumn/processColumn + mergeColumns refines a declarative "
              "cell-wise three-way merge, for all tables and all one-sided column adds/drops) + in-Coq correspondence through SQL in both merge directions")
-LEVEL_TEXT = ("Proof (F/P): for every ancestor/left/right table and every schema triple in the one-sided add/drop class the model of dolt's row merge "
-              "equals the declarative cell-wise merge (conflict_iff, merge_one_sided, merge_agree, merge_cellwise, merge_swap), and for every schema "
-              "triple whatsoever the repaired TryMerge never reaches an internal-error branch (merge_total; the line as found is refuted: F5). "
-              "Partial: two statements are false of the faithful model and of dolt (delete vs. update of a newly added column is resolved silently; "
-              "a reordered side whose row bytes coincide with the ancestor's loses its update) — kept as *_refuted witnesses replayed on every run. "
+LEVEL_TEXT = ("Proof (F/P): for every schema triple whatsoever and all tables the repaired TryMerge never reaches an internal-error branch (merge_total; "
+              "the line as found is refuted: F5). For every ancestor/left/right table and every schema triple in the one-sided add/drop class "
+              "(schemas_ok) the model of dolt's row merge (differ + TryMerge + primaryMerger) equals the declarative cell-wise three-way merge "
+              "(row_merge_refines_spec; conflict_iff_partial, merge_one_sided, merge_agree, merge_cellwise, merge_swap_partial) under two data "
+              "hypotheses that are exactly the complements of two defects: delete_visible and conv_ok. Partial: the full conflict_iff / merge_swap "
+              "statements are false of the faithful model and of dolt in three situations, kept as *_refuted witnesses that are replayed on the "
+              "implementation on every run: delete vs. update confined to an added column (resolved silently), byte-identical stored tuples under "
+              "different column lists (taken for a convergent edit), moved columns with a byte-equal row (update invisible to the differ). "
               "The model is tied to the code by CALL dolt_merge in both directions on generated branch histories.")
 LEVEL_NOTE = ("Trusted: Coq kernel, Go harness (SQL script runner over the in-process engine), Python glue. Modelled, not verified: SQL DML (the three "
               "input tables are read back from the three commits), prolly-tree diff/patch machinery (C14/C30; the model is key-wise), value encodings and type "
